@@ -1487,13 +1487,7 @@ impl TestTextSelection for TextSelectionSet {
                 .unwrap()
                 .test(operator, reftextsel, resource),
             TextSelectionOperator::SameRange { negate: false, .. } => {
-                self.leftmost()
-                    .unwrap()
-                    .test(operator, reftextsel, resource)
-                    && self
-                        .rightmost()
-                        .unwrap()
-                        .test(operator, reftextsel, resource)
+                self.begin() == Some(reftextsel.begin()) && self.end() == Some(reftextsel.end())
             }
 
             //negations
@@ -1648,13 +1642,7 @@ impl TestTextSelection for TextSelectionSet {
                 .unwrap()
                 .test_set(operator, refset, resource),
             TextSelectionOperator::SameRange { negate: false, .. } => {
-                self.leftmost()
-                    .unwrap()
-                    .test_set(operator, refset, resource)
-                    && self
-                        .rightmost()
-                        .unwrap()
-                        .test_set(operator, refset, resource)
+                !refset.is_empty() && self.begin() == refset.begin() && self.end() == refset.end()
             }
 
             //negations
